@@ -111,6 +111,44 @@ package objectcore
 // (Stated over the offset arithmetic; the byte-level statement "the key ends with the ID"
 // exceeded the solver budget - three chained quantified copies - and is left to the replay.)
 
+// Content of the typed objects (ValidateContent, run on the assembled object before it is
+// stored): a TOMBSTONE or LOCK is accepted only in the header-target format and with an
+// empty payload, a TOMBSTONE only after the tombstone verifier agreed, a LINK only with a
+// payload whose split chain was verified.
+//@ ghost pred contentType() object.Type
+//@ ghost pred contentPayloadLen() int
+//@ ghost pred targetInHeaderFormat() bool
+//@ ghost pred tombstoneVerified() bool
+//@ ghost pred splitChainVerified() bool
+//@ callrule c24_content_type in (*FormatValidator).ValidateContent
+//@   callee (object.Object).Type, (*object.Object).Type
+//@   pureeffect
+//@   defines result == contentType()
+//@ callrule c24_content_payload in (*FormatValidator).ValidateContent
+//@   callee (object.Object).Payload, (*object.Object).Payload
+//@   pureeffect
+//@   defines len(result) == contentPayloadLen()
+//@ callrule c24_content_format_version in (*FormatValidator).ValidateContent
+//@   callee version.SysObjTargetShouldBeInHeader
+//@   pureeffect
+//@   defines result == targetInHeaderFormat()
+//@ callrule c24_content_tombstone in (*FormatValidator).ValidateContent
+//@   callee (object.TombVerifier).VerifyTombStoneWithoutPayload
+//@   pureeffect
+//@   defines err == nil ==> tombstoneVerified()
+//@ callrule c24_content_split in (*FormatValidator).ValidateContent
+//@   callee (object.SplitVerifier).VerifySplit
+//@   pureeffect
+//@   defines err == nil ==> splitChainVerified()
+//@ callrule c24_content_collaborators in (*FormatValidator).ValidateContent
+//@   callee (object.Object).*, (*object.Object).*, (id.ID).*, (*object.Link).*, (object.Link).*
+//@   pureeffect
+//@ func (*FormatValidator).ValidateContent
+//@   ensures [system_object_only_in_header_target_format_without_payload] err == nil && (contentType() == object.TypeTombstone || contentType() == object.TypeLock) ==> targetInHeaderFormat() && contentPayloadLen() == 0
+//@   ensures [tombstone_verified] err == nil && contentType() == object.TypeTombstone ==> tombstoneVerified()
+//@   ensures [link_has_a_verified_chain] err == nil && contentType() == object.TypeLink ==> contentPayloadLen() > 0 && splitChainVerified()
+
+
 //@ fileprops C04
 
 //@ callrule c04_cursor_collaborators in CalculateCursor
